@@ -282,6 +282,7 @@ type c38Line struct {
 	options  []string
 	comment  string
 	class    []string
+	shape    string // option shapes, for the distinct-case key only
 	declared string
 }
 
@@ -319,7 +320,8 @@ func c38KeyLine(rt *rapid.T, k fkey, allowDamage bool) c38Line {
 		sb.WriteString(field)
 		sb.WriteString(pick(rt, "optsep", c38Blanks))
 	}
-	l.class = append(l.class, ocls)
+	l.class = append(l.class, fmt.Sprintf("opts=%d", nopt))
+	l.shape = ocls
 	blob64 := base64.StdEncoding.EncodeToString(k.blob)
 	damage := "none"
 	if allowDamage {
@@ -396,6 +398,7 @@ func c38Authorized(rt *rapid.T, p *c38Pools) (nontrivial bool, key string, class
 	var blobs [][]byte
 	n := rapid.IntRange(1, 3).Draw(rt, "nlines")
 	eolCls := ""
+	shapes := ""
 	for i := 0; i < n; i++ {
 		if rapid.IntRange(0, 3).Draw(rt, "junk") == 0 {
 			input.WriteString(pick(rt, "junkline", c38Junk))
@@ -408,6 +411,7 @@ func c38Authorized(rt *rapid.T, p *c38Pools) (nontrivial bool, key string, class
 		blobs = append(blobs, k.blob)
 		classes = append(classes, l.class...)
 		classes = append(classes, "key:"+k.class)
+		shapes += l.shape + ";"
 		input.WriteString(l.text)
 		eol := pick(rt, "eol", []string{"\n", "\n", "\r\n", ""})
 		if i < n-1 && eol == "" {
@@ -490,12 +494,12 @@ func c38Authorized(rt *rapid.T, p *c38Pools) (nontrivial bool, key string, class
 		classes = append(classes, fmt.Sprintf("result=key@line%d", first))
 	}
 	nontrivial = false
-	shape := ""
+	shape := shapes
 	for _, cl := range classes {
 		if strings.HasPrefix(cl, "opt:") || (strings.HasPrefix(cl, "damage=") && cl != "damage=none") {
 			nontrivial = true
 		}
-		if strings.HasPrefix(cl, "opts=") || strings.HasPrefix(cl, "damage=") || strings.HasPrefix(cl, "key:") || strings.HasPrefix(cl, "result=") || strings.HasPrefix(cl, "eol=") || cl == "junk-line" {
+		if strings.HasPrefix(cl, "damage=") || strings.HasPrefix(cl, "key:") || strings.HasPrefix(cl, "result=") || strings.HasPrefix(cl, "eol=") || cl == "junk-line" {
 			shape += cl + ";"
 		}
 	}
